@@ -137,6 +137,7 @@ pub fn run_case(tape: &mut Tape, _tier: Tier, _p: &CaseParams) -> CaseOutcome {
     }
   }
   let mut concat: Vec<String> = vec![];
+  let mut parts = parts;
   for p in &parts {
     for r in p {
       if !concat.contains(r) {
@@ -162,6 +163,31 @@ pub fn run_case(tape: &mut Tape, _tier: Tier, _p: &CaseParams) -> CaseOutcome {
   } else {
     None
   };
+  // sometimes the edited module is reloaded through a redirect chain that
+  // leads to it (and that is a root, so the chain is in the graph)
+  let reload_via_chain = edit_target
+    .as_ref()
+    .is_some_and(|t| t.starts_with("http"))
+    && tape.draw(Stream::World, 3) == 2;
+  let mut reload_spec = edit_target.clone();
+  if reload_via_chain {
+    let t = edit_target.clone().unwrap();
+    let hops = tape.range(Stream::World, 1, 3);
+    let mut next = t;
+    for h in (0..hops).rev() {
+      let u = format!("{}hop{}.ts", H_B, h);
+      world.remote.insert(u.clone(), Entry::Redirect(next));
+      next = u;
+    }
+    if !concat.contains(&next) {
+      concat.push(next.clone());
+      parts.last_mut().unwrap().push(next.clone());
+    }
+    world.roots = concat.clone();
+    enforce_same_attribute_proviso(&mut world);
+    crate::checks::worlds::resync_registry(&mut world);
+    reload_spec = Some(next);
+  }
   let edit_kind = tape.draw(Stream::World, 4);
   let edit_pick = tape.draw(Stream::World, 64);
   let hash_seed = draw_hash_seed(tape);
@@ -225,7 +251,7 @@ pub fn run_case(tape: &mut Tape, _tier: Tier, _p: &CaseParams) -> CaseOutcome {
   let sem_c = sem.clone();
   let parts_c = parts.clone();
   let scheds_c = scheds.clone();
-  let edit_target_c = edit_target.clone();
+  let edit_target_c = reload_spec.clone();
   let res = with_hash_seed(hash_seed, false, move || {
     let mut tape = t0;
     let plan = Rc::new(FaultPlan::default());
